@@ -260,6 +260,16 @@ def run_sequence(env, sink, cash, cfg, seq):
             if not close(r, er):
                 msgs.append("step %d: reward %r, expected %s(%r, %r) = %r" % (k, r, reward, now_nlv, pre, er))
         rewards.append(r)
+        if k == 1:
+            # the reporting tables are also read in the middle of the episode (a monitoring hook): reading must not freeze them
+            try:
+                tr.net_liquidation_value()
+                tr.net_liquidation_value(before_rebalancing=False)
+                tr.transaction_costs()
+                tr.weights_actual()
+                tr.weights_target()
+            except Exception as ex:
+                msgs.append("reading the reporting tables after decision %d raised %r" % (k, ex))
         # --- frames
         if msgs:
             return msgs
